@@ -1,4 +1,5 @@
 import SakuraVerif.Lemmas.Expr
+import SakuraVerif.Lemmas.ScriptExpr
 /-! # C10 — script expressions: conventional precedence, associativity, total arithmetic
 
 `parseLevel` is the model of the lexer's `read_calc_level` (precedence climbing over the four
@@ -131,5 +132,21 @@ example : wfE (.bin and' (.bin lt (.neg (.bin add (.atom 0) (.atom 1))) (.atom 2
   simp [wfE, and', lt, add, mul, top]
 example : parseLevel 40 top (print top (.bin mul (.neg (.bin add (.atom 0) (.atom 1))) (.atom 2)))
     = some (.bin mul (.neg (.bin add (.atom 0) (.atom 1))) (.atom 2), []) := by decide
+
+/-! ## what the runner computes -/
+
+open Sakura.Sx in
+/-- **`runner::exec` computes the tree's value** (literal script runner, `CalcTree` arm with `exec_args` and the value stack): for every
+    expression tree — any operators, any nesting, unary minus — and any environment held by the variable scopes, running the token
+    tree the lexer builds for it pushes exactly `evalTree ρ e` and changes nothing else.  With `C10_eval_parse_print` the value of a
+    printed expression is therefore the value the documented precedence prescribes. -/
+theorem C10_runner_computes_tree (fns : List Fn) (ρ : Nat → Val) (e : Expr) (f : Nat) (s : St) (hf : fuelE e ≤ f) (hb : s.brk = 0)
+    (hρ : ∀ a, getVar s.scopes [a] = some (some (ρ a))) :
+    execTok fns f (compileE e) s = push s (some (evalTree ρ e)) :=
+  exec_calc_tree fns ρ e f s hf hb hρ
+
+open Sakura.Sx in
+/-- the operator characters stored in `CalcTree` tokens select exactly the operations of the expression model -/
+theorem C10_calc_ops (id : Nat) (a b : Val) : calcOp (flagOf id) (some a) (some b) = some (some (evalOp id a b)) := calcOp_eval id a b
 
 end Sakura.Props.C10
